@@ -5,6 +5,7 @@ mod out;
 mod prng;
 mod ints;
 mod cond;
+mod locks;
 
 fn main() {
     let args: Vec<String> = std::env::args().collect();
@@ -25,6 +26,7 @@ fn main() {
         "C11" => ints::run(&mut o, seed, thorough, replay),
         "C01" => cond::run(&mut o, seed, thorough, replay),
         "C02" => cond::run_c02(&mut o, seed, thorough, replay),
+        "C03" => locks::run(&mut o, seed, thorough, replay),
         "C04" => cond::run_c04(&mut o, seed, thorough, replay),
         _ => { eprintln!("unknown property {prop}"); std::process::exit(2); }
     }
